@@ -1742,6 +1742,53 @@ def _c18_harnesses(prop, tier):
     return out
 
 
+def _c18_capture_handler_harnesses(prop, tier):
+    """C18 (native only): the panic sits in a block capture (evaluated before its step) or in the final handler"""
+    out = []
+    kinds = ["join", "try_join", "join_spawn", "try_join_spawn", "join_async", "try_join_async", "join_async_spawn", "try_join_async_spawn"]
+    for mac in kinds:
+        is_async = "async" in mac
+        is_try = mac.startswith("try")
+        for ds in [(2, 2), (1, 2)] + ([] if tier == "quick" else [(2, 1, 2), (3, 2)]):
+            n = len(ds)
+            sites = [("cap", bi, si) for bi in range(n) for si in range(1, ds[bi])] + [("handler", 0, max(ds) - 1)]
+            for (site, bi, si) in sites:
+                brs = []
+                for i in range(n):
+                    if is_async:
+                        t = "async move { ev(code(K_CALL, %d, 0, 0)); %s }" % (i, "Ok::<u8, u8>(%du8)" % i if is_try else "%du8" % i)
+                    else:
+                        t = ("Ok::<u8, u8>(%du8)" % i if is_try else "Some(%du8)" % i) + " |> |x: u8| { ev(code(K_CALL, %d, 0, 0)); x }" % i
+                    for s in range(1, ds[i]):
+                        inj = "panic!(\"INJECTED\");" if (site, i, s) == ("cap", bi, si) else ""
+                        if is_async and is_try:
+                            t += " ~=> { %s move |x: u8| async move { ev(code(K_CALL, %d, %d, 0)); Ok::<u8, u8>(x) } }" % (inj, i, s)
+                        else:
+                            t += " ~|> { %s move |x: u8| { ev(code(K_CALL, %d, %d, 0)); x } }" % (inj, i, s)
+                    brs.append(t)
+                h = ""
+                if site == "handler":
+                    args = ", ".join("_x%d" % i for i in range(n))
+                    if is_try:
+                        h = ", map => |%s| -> u8 { panic!(\"INJECTED\") }" % args
+                    elif is_async:
+                        h = ", then => |%s| async move { if true { panic!(\"INJECTED\") } 0u8 }" % args
+                    else:
+                        h = ", then => |%s| -> u8 { panic!(\"INJECTED\") }" % args
+                prog = "%s! { %s%s }" % (mac, ", ".join(brs), h)
+                run = ("block_on_tokio(async move { let _ = %s.await; })" % prog) if is_async else ("{ let _ = %s; }" % prog)
+                b = "    let res = with_watchdog(move || std::panic::catch_unwind(std::panic::AssertUnwindSafe(|| %s)).is_err());\n" % run
+                b += "    assert!(res.is_some(), \"C18: the caller was left blocked after a panic\");\n"
+                b += "    assert!(res == Some(true), \"C18: the panic of a user expression did not reach the caller\");\n"
+                if site == "cap":
+                    # a block capture of step s is evaluated before any expression of step s
+                    b += "    let nev = tlen().min(TMAX);\n"
+                    b += "    for k in 0..nev { assert!(step_of(tr(k)) < %d, \"C18: an expression of the step (or of a later one) ran after the panic in its block capture\"); }\n" % si
+                hn = "%s_panic_%s_%s_%s_b%ds%d" % (prop.lower(), site, mac, pname(ds), bi, si)
+                out.append(Harness(hn, harness_fn(hn, b), prog, note="panic in a %s at branch %d step %d, profile %s" % (site, bi, si, ds)))
+    return out
+
+
 def _c18_blocked_sibling_harnesses(prop, tier):
     """C18 (native only): branch 0 panics in step s while every later-numbered branch of that step is blocked on
     something only the harness releases AFTER the caller has returned: the panic must reach the caller anyway"""
@@ -1776,6 +1823,7 @@ def native_families(pid, tier):
     quick = tier == "quick"
     if pid == "C18":
         out += _c18_blocked_sibling_harnesses(pid, tier)
+        out += _c18_capture_handler_harnesses(pid, tier)
     if pid == "C08":
         out += _c08_harnesses(pid, tier)
     if pid == "C18":
